@@ -252,6 +252,10 @@ func c07Strata() []*gast.Grammar {
 		mk(r("A", gast.Rec(gast.Ref("B"), gast.Ref("R"), "L1")), r("B", gast.S(gast.L("x"), gast.Ref("C"))), r("C", gast.Thr("L1")), r("R", gast.Ref("C"))),
 		mk(r("Stmt", gast.Rec(gast.S(gast.Ref("Expr"), gast.L(";")), gast.Ref("Resync"), "L1")), r("Expr", gast.C(gast.Plus(gast.Cl(gast.Chars("01"))), gast.Thr("L1"))),
 			r("Resync", gast.S(gast.Star(gast.Cl(&gast.ClassSpec{Chars: []rune(";01"), Inverted: true})), gast.Ref("Stmt")))),
+		// a LABELLED nullable prefix before the recursive reference, in an alternative after a nullable one
+		// that can still fail at run time / in a recovery expression after a nullable guarded expression
+		mk(r("Expr", gast.S(gast.C(gast.AndE(gast.L("(")), gast.S(gast.Lab("n", gast.Opt(gast.L("-"))), gast.Ref("Expr"))), gast.Ref("Atom"))), r("Atom", gast.Cl(gast.Chars("ab(")))),
+		mk(r("R", gast.Rec(gast.S(gast.Opt(gast.L("a")), gast.Thr("L1")), gast.S(gast.Lab("s", gast.Star(gast.L(" "))), gast.Ref("R")), "L1"))),
 		// a nullable left-recursive rule whose recursive reference follows a nullable helper rule; the
 		// helper's name sorts after / before the rule's name
 		mk(r("Items", gast.C(gast.S(gast.Ref("Sep"), gast.Ref("Items"), gast.Ref("Item")), gast.L(""))), r("Sep", gast.Star(gast.L(","))), r("Item", gast.Cl(gast.Chars("ab")))),
